@@ -371,17 +371,34 @@ size_t SimpleString::count(const SimpleString& substr) const
     return num;
 }
 
+static size_t countNonOverlapping(const char* str, const char* substr)
+{
+    size_t num = 0;
+    size_t step = SimpleString::StrLen(substr);
+    if (step == 0) step = 1;
+    while (*str && (str = SimpleString::StrStr(str, substr)) != NULLPTR) {
+        num++;
+        str += step;
+    }
+    return num;
+}
+
 void SimpleString::split(const SimpleString& delimiter, SimpleStringCollection& col) const
 {
-    size_t num = count(delimiter);
-    size_t extraEndToken = (endsWith(delimiter)) ? 0 : 1U;
+    size_t num = countNonOverlapping(getBuffer(), delimiter.getBuffer());
+    size_t delimiterLength = delimiter.isEmpty() ? 1 : delimiter.size();
+
+    const char* rest = getBuffer();
+    for (size_t n = 0; n < num; ++n)
+        rest = StrStr(rest, delimiter.getBuffer()) + delimiterLength;
+    size_t extraEndToken = (*rest || (isEmpty() && !delimiter.isEmpty())) ? 1U : 0;
     col.allocate(num + extraEndToken);
 
     const char* str = getBuffer();
     const char* prev;
     for (size_t i = 0; i < num; ++i) {
         prev = str;
-        str = StrStr(str, delimiter.getBuffer()) + 1;
+        str = StrStr(str, delimiter.getBuffer()) + delimiterLength;
         col[i] = SimpleString(prev).subString(0, size_t (str - prev));
     }
     if (extraEndToken) {
@@ -399,7 +416,7 @@ void SimpleString::replace(char to, char with)
 
 void SimpleString::replace(const char* to, const char* with)
 {
-    size_t c = count(to);
+    size_t c = (*to) ? countNonOverlapping(getBuffer(), to) : 0;
     if (c == 0) {
         return;
     }
